@@ -167,7 +167,8 @@ fn judge_thread(p: &Puppet, e: &Expect, cb: &[u8], stack_start: u64, stack_len: 
 
 /// One puppet with the given register files (one thread each); returns failures.
 /// `optmode`: 0 default options; 1 size limit 0 (always exceeded) with the LAST thread blamed; 2 the same
-/// plus stack sanitising and skip-unreferenced; 3 size limit 0 with a thread in the middle blamed.
+/// plus stack sanitising and skip-unreferenced; 3 size limit 0 with a thread in the middle blamed;
+/// 4 the target was stopped by job control (SIGTSTP) before the request; 5 stopped by SIGSTOP before the request.
 fn run_regfiles(files: &[RegFile], null_sp_threads: usize) -> (Value, Vec<(String, String)>, u64) {
     run_regfiles_opt(files, null_sp_threads, 0)
 }
@@ -215,6 +216,22 @@ fn run_regfiles_opt(files: &[RegFile], null_sp_threads: usize, optmode: u8) -> (
             o.blamed = live.get(live.len() / 2).copied();
         }
         _ => {}
+    }
+    if optmode == 4 || optmode == 5 {
+        if optmode == 4 {
+            let _ = p.cmd("newpgrp");
+            p.quiesce();
+        }
+        unsafe {
+            libc::syscall(libc::SYS_kill, p.pid, if optmode == 4 { libc::SIGTSTP } else { libc::SIGSTOP });
+        }
+        let dl = std::time::Instant::now() + std::time::Duration::from_secs(5);
+        while std::time::Instant::now() < dl && !p.status_field(p.pid, "State").unwrap_or_default().starts_with('T') {
+            std::thread::sleep(std::time::Duration::from_millis(1));
+        }
+        if !p.status_field(p.pid, "State").unwrap_or_default().starts_with('T') {
+            fails.push(("MACHINERY".into(), "the target did not stop before the request".into()));
+        }
     }
     let bytes = match dump_mem(p.pid, &o) {
         DumpResult::Ok(b) => b,
@@ -537,10 +554,11 @@ pub fn run(ctx: &Ctx, rep: &mut Report) {
         // each batch of register files also runs under one of the option modes that touch the
         // thread-list writer's position logic (40 threads: positions below and above 20)
         items.push((chunk.to_vec(), 0, 0));
-        items.push((chunk.to_vec(), 0, 1 + (ci % 3) as u8));
+        items.push((chunk.to_vec(), 0, 1 + (ci % 5) as u8));
         if ctx.tier.is_thorough() {
-            items.push((chunk.to_vec(), 0, 1 + ((ci + 1) % 3) as u8));
-            items.push((chunk.to_vec(), 0, 1 + ((ci + 2) % 3) as u8));
+            for k in 1..5 {
+                items.push((chunk.to_vec(), 0, 1 + ((ci + k) % 5) as u8));
+            }
         }
     }
     // (a) completeness shapes
@@ -557,6 +575,10 @@ pub fn run(ctx: &Ctx, rep: &mut Report) {
                     items.push((files.clone(), nulls, 1));
                     items.push((files.clone(), nulls, 3));
                 }
+                if n <= 8 && mix == 2 {
+                    items.push((files.clone(), nulls, 4));
+                    items.push((files.clone(), nulls, 5));
+                }
             }
         }
     }
@@ -571,7 +593,11 @@ pub fn run(ctx: &Ctx, rep: &mut Report) {
             rep.sample(case.clone());
         }
         for (k, m) in fails {
-            rep.violation(&k, &m, case.clone());
+            if k == "MACHINERY" {
+                rep.machinery(m);
+            } else {
+                rep.violation(&k, &m, case.clone());
+            }
         }
     }
     // (d) sequential: the fail point is process-global
